@@ -111,13 +111,15 @@ SelfReadErrs(e) ==       \* e.src = index of source file; e.events = yields of t
          /\ \A k \in 1..Len(Y) : WF(Y[k].g) /\
                GotRead(Case.destfmt, Abs(Y[k].g), {}) =
                  {Masked(Case.destfmt, x, {}, x.a) : x \in ReadTree(Case.destfmt, Written(Rs[k]), {}, "export_four" \in DO).nodes})
-BackErrs(e) ==          \* A -> B -> A : the file written by the second run
-  IF ~ExpectOK \/ SplitOn THEN {}
-  ELSE IF e.rc # 0 THEN {"C03.roundtrip.exit0"}
+\* A -> B -> A and A -> B -> C : the file written by the second run (e.fmt = its format)
+ChainWritable(e, Rs) == ~(e.fmt = "brackets" /\ \E k \in 1..Len(Rs) : GapDeg(Rs[k]) > 0)
+BackErrs(e) ==
+  IF ~ExpectOK \/ SplitOn \/ ~ChainWritable(e, Kept(e.src)) THEN {}
+  ELSE IF e.rc # 0 THEN {IF e.fmt = Case.srcfmt THEN "C03.roundtrip.exit0" ELSE "C03.chain.exit0"}
   ELSE LET Rs == Kept(e.src)
            R2 == [k \in 1..Len(Rs) |-> ReadTree(Case.destfmt, Written(Rs[k]), {}, "export_four" \in DO)]
            sids2 == IF Case.destfmt \in {"brackets", "discobrackets"} THEN [k \in 1..Len(Rs) |-> k] ELSE KeptSids(e.src)
-       IN FileErrs(e.files, e.name, Case.srcfmt, {}, R2, sids2, "C03.roundtrip")
+       IN FileErrs(e.files, e.name, e.fmt, {}, R2, sids2, IF e.fmt = Case.srcfmt THEN "C03.roundtrip" ELSE "C03.chain")
 
 TInit == tid \in 1..Len(Cases) /\ l = 0 /\ errs = {} /\ done = FALSE
 TStep == /\ ~done /\ l < Len(Case.events) /\ l' = l + 1
